@@ -38,6 +38,13 @@ func (s c09Scenario) name() string {
 	return n
 }
 
+func (s c09Scenario) writerScenario() string {
+	if s.scenario == "create-first" {
+		return fmt.Sprintf("create-first@%d", s.ps)
+	}
+	return s.scenario
+}
+
 type shimOp struct {
 	k    int
 	kind string
@@ -115,6 +122,8 @@ func C09(run *hx.Run) {
 		{"truncate", "update-many", 512, false, false},
 		{"persist", "spill-insert", 1024, false, true},
 		{"delete", "update-many", 1024, true, false}, // journal sector (4096) larger than the page
+		{"delete", "spill-insert+nosync", 1024, false, false}, // synchronous=off: journal header complete from the start, nRec = 0xffffffff
+		{"delete", "create-first", 1024, false, false},        // first transaction on a brand-new 0-byte file
 	}
 	stride := 3
 	if run.Thorough() {
@@ -129,6 +138,10 @@ func C09(run *hx.Run) {
 					scs = append(scs, c09Scenario{jm, sc, ps, ps == 512 && sc != "small-insert", jm == "persist" && ps != 4096})
 				}
 			}
+			for _, sc := range []string{"spill-insert+nosync", "update-many+nosync", "two-statements+nosync"} {
+				scs = append(scs, c09Scenario{jm, sc, 1024, false, false}, c09Scenario{jm, sc, 512, true, false})
+			}
+			scs = append(scs, c09Scenario{jm, "create-first", 512, false, false}, c09Scenario{jm, "create-first", 4096, true, false})
 		}
 	}
 	dir, cleanup := hx.ScratchDir("C09")
@@ -154,7 +167,9 @@ func C09(run *hx.Run) {
 		if si%2 == 1 {
 			nrows = 1600
 		}
-		if err := makeVersionedDB(o, base, sc.ps, nrows); err != nil {
+		if sc.scenario == "create-first" {
+			os.WriteFile(base, nil, 0o644)
+		} else if err := makeVersionedDB(o, base, sc.ps, nrows); err != nil {
 			run.Inconclusive("base db: " + err.Error())
 			continue
 		}
@@ -178,7 +193,7 @@ func C09(run *hx.Run) {
 			copyFile(base+"-journal", cp+"-journal")
 		}
 		logp := filepath.Join(cdir, "ops.log")
-		w, err := hx.StartStepper(cdir, cp, sc.jmode, sc.scenario, params, "count", 0, logp)
+		w, err := hx.StartStepper(cdir, cp, sc.jmode, sc.writerScenario(), params, "count", 0, logp)
 		if err != nil {
 			run.Inconclusive("count run: " + err.Error())
 			continue
@@ -247,7 +262,9 @@ func C09(run *hx.Run) {
 				if lerr == nil {
 					readVersioned(long)
 				}
-				w, err := hx.StartStepper(wdir, orig, sc.jmode, sc.scenario, params, t.variant, t.k, "")
+				// ... and one that was only opened, never used, before the writer died
+				unused, _ := sqlittle.Open(orig)
+				w, err := hx.StartStepper(wdir, orig, sc.jmode, sc.writerScenario(), params, t.variant, t.k, "")
 				if err != nil {
 					run.Inconclusive("crash run: " + err.Error())
 					if long != nil {
@@ -276,9 +293,17 @@ func C09(run *hx.Run) {
 					continue
 				}
 				want, err := sqliteVersioned(o, rec)
+				emptyDB := false
 				if err != nil {
-					run.Inconclusive("reference read of the recovered copy: " + err.Error())
-					continue
+					if strings.Contains(err.Error(), "no such table") {
+						// SQLite's recovery leaves a database without our tables (first transaction rolled back):
+						// nothing may be delivered from it
+						emptyDB = true
+						want = map[string][]hx.Row{}
+					} else {
+						run.Inconclusive("reference read of the recovered copy: " + err.Error())
+						continue
+					}
 				}
 				// sqlittle on the original pair
 				run.Eval(1)
@@ -288,7 +313,7 @@ func C09(run *hx.Run) {
 				run.See("variant", t.variant)
 				run.See("leftover_journal", jc)
 				detail := hx.M{"scenario": sc.name(), "k": t.k, "variant": t.variant, "op": opclass, "journal": jc}
-				clean := jc == "absent" || jc == "empty" || jc == "zero-header" || jc == "no-magic"
+				clean := (jc == "absent" || jc == "empty" || jc == "zero-header" || jc == "no-magic") && !emptyDB
 				nerr, nok := 0, 0
 				func() {
 					var db *sqlittle.DB
@@ -345,6 +370,12 @@ func C09(run *hx.Run) {
 						}
 						return long, func() {}, nil
 					}},
+					{"handle-opened-before-crash-never-used", func() (*sqlittle.DB, func(), error) {
+						if unused == nil {
+							return nil, nil, fmt.Errorf("no handle")
+						}
+						return unused, func() {}, nil
+					}},
 					{"fresh-handle-with-foreign-reader", func() (*sqlittle.DB, func(), error) {
 						lh, err := hx.StartLockHolder(orig, "shared:RD")
 						if err != nil {
@@ -359,7 +390,7 @@ func C09(run *hx.Run) {
 					}},
 				}
 				for _, ex := range extra {
-					if ex.kind != "long-lived-handle" && t.k%4 != 0 && t.op.kind == "write" {
+					if ex.kind == "fresh-handle-with-foreign-reader" && t.k%4 != 0 && t.op.kind == "write" {
 						continue // the foreign-reader variant is sampled (it spawns a process)
 					}
 					d, done, err := ex.open()
@@ -371,6 +402,17 @@ func C09(run *hx.Run) {
 						continue
 					}
 					v2 := readVersioned(d)
+					// whatever the outcome, a finished call leaves no lock of ours behind
+					if ex.kind != "fresh-handle-with-foreign-reader" {
+						if locks, err := hx.FileLocks(orig); err == nil {
+							for _, l := range locks {
+								if l.Pid == os.Getpid() {
+									run.Violation("C09/lock-left-behind/"+ex.kind, fmt.Sprintf("%s, leftover journal %s: after reading through a %s (errors: %v) this process still holds a lock %+v on the database", sc.name(), jc, ex.kind, v2.errs["Select/t"], l), detail)
+									break
+								}
+							}
+						}
+					}
 					done()
 					run.Eval(1)
 					ok2, err2 := 0, 0
@@ -397,6 +439,9 @@ func C09(run *hx.Run) {
 				}
 				if long != nil {
 					long.Close()
+				}
+				if unused != nil {
+					unused.Close()
 				}
 				if t.k%11 == 0 || t.op.kind != "write" {
 					run.Sample(hx.M{"scenario": sc.name(), "k": t.k, "variant": t.variant, "op": opclass, "journal_left": jc, "ops_ok": nok, "ops_refused": nerr})
